@@ -15,7 +15,7 @@ from ..acc import Acc
 ID = "C20"
 LEVEL = "exploration"
 TECHNIQUE = "bounded-exhaustive enumeration of Resources values / operand lists against a reference arithmetic"
-RULE = ("all pairs over a 960-value product alphabet (structure x gpus x memory x time x partition x extra_args) for "
+RULE = ("all pairs over a 1440-value product alphabet (structure x gpus x memory x time x partition x extra_args) for "
         "combine_max/with_defaults/maybe_with_defaults; all operand lists of length 1..3 (thorough 4) over per-quantity "
         "focus alphabets; update with every field and an unknown key; from_dict/dict round trip; to_slurm_options; NestedPipeFunc resources >= its children's (6x6 child resources, nested directly and through Pipeline(default_resources in 3 values).nest_funcs); invalid "
         "constructions by single-edit mutation. non-trivial = distinct operand list in which at least two operands set the "
@@ -52,7 +52,7 @@ def _spellings(seconds):
 DURATIONS = [30 * 60, 99 * 60 + 59, 2 * 3600, 10 * 3600, 24 * 3600, 25 * 3600 + 123, 30 * 3600, 48 * 3600, 59 * 3600, 61 * 3600, 100 * 3600]
 TIME_FULL = [None] + sorted({s for d in DURATIONS for s in _spellings(d)})
 PART = [None, "p"]
-EXTRA = [{}, {"a": 1}]
+EXTRA = [{}, {"a": 1}, {"a": 3}]  # two values for one key: a real precedence decision in with_defaults
 EXTRA_FULL = [{}, {"a": 1}, {"b": 2}, {"a": 3}]
 
 
